@@ -79,6 +79,8 @@ def queries(tier, seed):
 
     for backend in ('spqlios', 'nayuki'):
         for a, b in pairs:
+            if tier == 'quick' and backend == 'spqlios' and (a, b) == (2, 2):
+                continue        # 21 queries of ~100 s: thorough tier (the nayuki pair and the spqlios ifft pair stay in quick)
             k = NSITES[backend][a]
             for lo in range(k):
                 out.append(two(backend, a, b, lo, lo + 1, False))
